@@ -91,6 +91,15 @@ func setTun(w *kernel.Worker, name string, v float64) error {
 	return w.Call("tun", map[string]interface{}{"name": name, "value": v}, nil)
 }
 
+// setProcs sets GOMAXPROCS of the worker and returns the previous value.
+func setProcs(w *kernel.Worker, n int) (int, error) {
+	var r struct {
+		Prev int `json:"prev"`
+	}
+	err := w.Call("tun", map[string]interface{}{"name": "gomaxprocs", "value": float64(n)}, &r)
+	return r.Prev, err
+}
+
 func delIndex(w *kernel.Worker, org int64, index string) error {
 	return w.Call("delindex", map[string]interface{}{"org": org, "index": index}, nil)
 }
